@@ -459,7 +459,20 @@ impl BlockSpec {
                 vec![D::U8(gen_u8(&g[0], BDom::Bytes))]
             }
             StreamToPduF32 { .. } => vec![D::F32(gen_f32(&g[0], FDom::Any))],
-            Nrzi | Descrambler { .. } | Cac { .. } | CacTag { .. } | Il2p => vec![D::U8(gen_u8(&g[0], BDom::Bits))],
+            // the correlators compare positions, whatever the byte values: in half of their
+            // cases every seventh sample is a byte other than 0 and 1
+            Cac { .. } | CacTag { .. } => {
+                let mut v = gen_u8(&g[0], BDom::Bits);
+                if g[0].seed % 2 == 0 {
+                    for (i, x) in v.iter_mut().enumerate() {
+                        if i % 7 == 3 {
+                            *x |= 2 + ((i / 7) % 3) as u8 * 2;
+                        }
+                    }
+                }
+                vec![D::U8(v)]
+            }
+            Nrzi | Descrambler { .. } | Il2p => vec![D::U8(gen_u8(&g[0], BDom::Bits))],
             Hdlc { .. } => {
                 // half of the time structured (framed payloads + noise), else raw bit patterns
                 if g[0].pat & 1 == 0 {
